@@ -66,6 +66,9 @@ fn pinned_cases() -> Vec<crate::props::pinned::Pinned> {
         case("return in a call argument does not fail", "upcase({ if .a == true { return \"x\" }; \"y\" })", ev(&[("a", TV::Bool(true))]), "success"),
         case("return in an array closure does not fail", "for_each([1, 2]) -> |i, v| { if v == 1 { return 3 }; .x = v }", ev(&[]), "success"),
         case("element removal keeps the following indices typed", ".a = [1.5, 2, \"s\"]\ndel(.a[0])\nupcase(.a[1])", ev(&[]), "success"),
+        case("`true && x` with an object x can fail and is rejected", "x = {\"a\": 1}\ntrue && x", ev(&[]), "rejected"),
+        case("`y && x` with a constant-true y and a boolean-or-object x is rejected", "x = if .flag == true { {\"a\": 1} } else { false }\ny = true\ny && x", ev(&[("flag", TV::Bool(true))]), "rejected"),
+        case("`true && b` with a boolean b is accepted", "b = .flag == true\ntrue && b", ev(&[("flag", TV::Bool(true))]), "success"),
         case("the shifted-out index is no longer typed as a string", ".a = [1.5, 2, \"s\"]\ndel(.a[0])\nupcase(.a[2])", ev(&[]), "rejected"),
     ]
 }
